@@ -56,7 +56,12 @@ def _run_shard(args):
     mod = importlib.import_module(modname)
     s = Shard(prop, tier, seed, params)
     try:
-        mod.shard(s, params)
+        w = params.get("replay")
+        if isinstance(w, dict) and isinstance(w.get("replay"), dict) and "kind" in w["replay"]:
+            from . import replay as _replay
+            _replay.evaluate(s, w["replay"])      # self-contained process-level replay
+        else:
+            mod.shard(s, params)
     except build.BuildError as e:
         s.inconc("build: %s" % e)
     except Exception:
